@@ -57,6 +57,7 @@ package jsonapi
 //@ ensures rels-dom: result1 == nil ==> (forall r string :: (r in result0.Type.Rels) == (rsk_hasRel(old(text(data)), r) && rsk_relData(old(text(data)), r) != ""))
 //@ ensures rels-def: result1 == nil ==> (forall r string, i int :: r in result0.Type.Rels && isFirst(schema, i, rsk_type(old(text(data)))) ==> r in schema.Types[i].Rels && result0.Type.Rels[r] == schema.Types[i].Rels[r])
 //@ ensures typed: result1 == nil ==> srTyped(result0)
+//@ ensures attr-values: result1 == nil ==> (forall a3 string :: rsk_hasAttr(old(text(data)), a3) ==> a3 in result0.data && attrValOK(result0.data[a3], result0.Type.Attrs[a3], rsk_attrText(old(text(data)), a3)))
 //@ ensures rel-values: result1 == nil ==> (forall r string :: r in result0.Type.Rels ==> r in result0.data && relVal(result0.data[r], result0.Type.Rels[r], rsk_relData(old(text(data)), r)))
 //@ loop 0 invariant frame: unchanged(heap[Type]) && unchanged(heap[Schema]) && unchanged(maps[map[string]Attr]) && unchanged(maps[map[string]Rel]) && unchanged(heap[string]) && unchanged(heap[uint8]) && unchanged(heap[SoftResource]) && unchanged(maps[map[string]any])
 //@ loop 0 invariant loopframe: loopkept(heap[uint8])
@@ -67,6 +68,7 @@ package jsonapi
 //@ loop 0 invariant attrs-only: forall a string :: a in res.Type.Attrs ==> visited(a) && a in typ.Attrs
 //@ loop 0 invariant no-rels: forall r string :: !(r in res.Type.Rels)
 //@ loop 0 invariant typed: upTyped(res)
+//@ loop 0 invariant attr-values: forall a3 string :: visited(a3) ==> a3 in res.data && attrValOK(res.data[a3], typ.Attrs[a3], rsk_attrText(old(text(data)), a3))
 //@ loop 0 invariant visited-ok: forall a2 string :: visited(a2) ==> a2 in typ.Attrs && uttOK(typ.Attrs[a2], rsk_attrText(old(text(data)), a2))
 //@ loop 0 invariant json-ok: jsonOK_resource(old(text(data)))
 //@ loop 0 invariant first-now: exists i int :: named(schema, i, rsk_type(old(text(data)))) && typ == schema.Types[i]
@@ -81,6 +83,7 @@ package jsonapi
 //@ loop 1 invariant rels-so-far: forall r string :: visited(r) && rsk_relData(old(text(data)), r) != "" ==> r in res.Type.Rels && res.Type.Rels[r] == typ.Rels[r]
 //@ loop 1 invariant rels-only: forall r string :: r in res.Type.Rels ==> visited(r) && r in typ.Rels && rsk_relData(old(text(data)), r) != ""
 //@ loop 1 invariant typed: upTyped(res)
+//@ loop 1 invariant attr-values: forall a3 string :: rsk_hasAttr(old(text(data)), a3) ==> a3 in res.data && attrValOK(res.data[a3], typ.Attrs[a3], rsk_attrText(old(text(data)), a3))
 //@ loop 1 invariant attrs-ok: attrsOK(old(text(data)), typ)
 //@ loop 1 invariant visited-ok: forall r3 string :: visited(r3) ==> r3 in typ.Rels && relDataOK(typ.Rels[r3], rsk_relData(old(text(data)), r3))
 //@ loop 1 invariant json-ok: jsonOK_resource(old(text(data))) && err == nil
@@ -106,7 +109,7 @@ package jsonapi
 //@ loop 0 invariant idens: fresh(idens) && len(idens) == len(raw) && raw == pre(raw) && unchanged(heap[Identifier]) && unchanged(heap[string]) && unchanged(heap[Type]) && unchanged(heap[Schema])
 //@ loop 0 invariant done: schema != nil ==> (forall k int :: 0 <= k && k <= $idx ==> hasType(schema, idens[k].Type) && idens[k].ID != "")
 //@ func UnmarshalPartialResource+
-//@ use SoftResource.Set: keep-id set-rel others checked fresh-data fresh-maps new-maps-empty typed-attrs typed-rels only-fields
+//@ use SoftResource.Set: keep-id set-attr set-rel others checked fresh-data fresh-maps new-maps-empty typed-attrs typed-rels only-fields
 //@ use Type.AddAttr: accept added others rest same-map fresh-map wf disjoint unchanged-on-error
 //@ use Type.AddRel: accept added others rest same-map fresh-map wf disjoint unchanged-on-error
 //@ assert before Set#0 attr-added: attr.Name == a && a in res.Type.Attrs && res.Type.Attrs[a] == typ.Attrs[a]
@@ -121,7 +124,7 @@ package jsonapi
 //@ assert before Set#2 others-kept: forall r2 string :: r2 != r && r2 in res.Type.Rels ==> visited#1(r2) && r2 in typ.Rels && res.Type.Rels[r2] == typ.Rels[r2]
 //@ assert before Set#1 data-fields: res.data != nil ==> (forall k string :: k in res.data ==> srIsField(res, k))
 //@ assert before Set#2 data-fields: res.data != nil ==> (forall k string :: k in res.data ==> srIsField(res, k))
-//@ use Attr.UnmarshalToType: error-xor-value accepts accepts-bytes typed-string typed-int typed-int8 typed-int16 typed-int32 typed-int64 typed-uint typed-uint8 typed-uint16 typed-uint32 typed-uint64 typed-bool typed-time-Time typed-slice-byte
+//@ use Attr.UnmarshalToType: error-xor-value accepts accepts-bytes value typed-string typed-int typed-int8 typed-int16 typed-int32 typed-int64 typed-uint typed-uint8 typed-uint16 typed-uint32 typed-uint64 typed-bool typed-time-Time typed-slice-byte
 //@ use Schema.GetType: found missing named first
 //@ assert before Set#1 one-text: rsk_hasRel(old(text(data)), r) && text(v#1.Data) == rsk_relData(old(text(data)), r) && (err == nil ==> iden.ID == ident_id(rsk_relData(old(text(data)), r)))
 //@ assert before Set#1 prev-vals: forall r2 string :: r2 != r && r2 in res.Type.Rels ==> r2 in res.data && relVal(res.data[r2], res.Type.Rels[r2], rsk_relData(old(text(data)), r2))
@@ -163,6 +166,7 @@ package jsonapi
 //@ func UnmarshalResource
 //@ flag devirt
 //@ flag devirt-closed
+//@ flag frame-per-return
 //@ flag post-per-return
 //@ inline Type.New
 //@ props C05 C13 C12
@@ -177,6 +181,7 @@ package jsonapi
 //@ ensures attrs-def: result1 == nil ==> (forall a string, i int :: isFirst(schema, i, rsk_type(old(text(data)))) ==> (a in asSoft(result0).Type.Attrs) == (a in schema.Types[i].Attrs) && (a in schema.Types[i].Attrs ==> asSoft(result0).Type.Attrs[a] == schema.Types[i].Attrs[a]))
 //@ ensures rels-def: result1 == nil ==> (forall r string, i int :: isFirst(schema, i, rsk_type(old(text(data)))) ==> (r in asSoft(result0).Type.Rels) == (r in schema.Types[i].Rels) && (r in schema.Types[i].Rels ==> asSoft(result0).Type.Rels[r] == schema.Types[i].Rels[r]))
 //@ ensures typed: result1 == nil ==> srTyped(asSoft(result0))
+//@ ensures attr-values: result1 == nil ==> (forall a3 string :: rsk_hasAttr(old(text(data)), a3) ==> a3 in asSoft(result0).data && attrValOK(asSoft(result0).data[a3], asSoft(result0).Type.Attrs[a3], rsk_attrText(old(text(data)), a3)))
 //@ ensures rel-values-one: result1 == nil ==> (forall r string :: rsk_hasRel(old(text(data)), r) && rsk_relData(old(text(data)), r) != "" ==> r in asSoft(result0).data && (asSoft(result0).Type.Rels[r].ToOne ==> relOneVal(asSoft(result0).data[r], rsk_relData(old(text(data)), r))))
 //@ ensures rel-values-many: result1 == nil ==> (forall r string :: rsk_hasRel(old(text(data)), r) && rsk_relData(old(text(data)), r) != "" ==> r in asSoft(result0).data && (!asSoft(result0).Type.Rels[r].ToOne ==> relManyVal(asSoft(result0).data[r], rsk_relData(old(text(data)), r))))
 //@ ensures payload-fields-known: result1 == nil ==> (forall a string :: rsk_hasAttr(old(text(data)), a) ==> a in asSoft(result0).Type.Attrs) && (forall r string :: rsk_hasRel(old(text(data)), r) ==> r in asSoft(result0).Type.Rels)
@@ -185,6 +190,7 @@ package jsonapi
 //@ loop 0 invariant shape: urShape(res, old(text(data))) && asSoft(res).Type == &typ && typ == pre(typ) && srReady(asSoft(res)) && fresh(asSoft(res).data) && res == pre(res) && asSoft(res).data == pre(asSoft(res).data)
 //@ loop 0 invariant shape-wf: attrsWf(typ.Attrs) && relsWf(typ.Rels) && fieldsDisjoint(typ) && !("id" in typ.Attrs) && !("id" in typ.Rels) && typ.Name == rsk_type(old(text(data)))
 //@ loop 0 invariant typed: srTyped(asSoft(res))
+//@ loop 0 invariant attr-values: forall a3 string :: visited(a3) ==> a3 in asSoft(res).data && attrValOK(asSoft(res).data[a3], typ.Attrs[a3], rsk_attrText(old(text(data)), a3))
 //@ loop 0 invariant data-only-fields: forall k string :: k in asSoft(res).data ==> srIsField(asSoft(res), k)
 //@ loop 0 invariant visited-known: forall a string :: visited(a) ==> a in typ.Attrs
 //@ loop 0 invariant visited-ok: forall a2 string :: visited(a2) ==> uttOK(typ.Attrs[a2], rsk_attrText(old(text(data)), a2))
@@ -195,6 +201,7 @@ package jsonapi
 //@ loop 1 invariant shape: urShape(res, old(text(data))) && asSoft(res).Type == &typ && typ == pre(typ) && srReady(asSoft(res)) && fresh(asSoft(res).data) && res == pre(res) && asSoft(res).data == pre(asSoft(res).data)
 //@ loop 1 invariant shape-wf: attrsWf(typ.Attrs) && relsWf(typ.Rels) && fieldsDisjoint(typ) && !("id" in typ.Attrs) && !("id" in typ.Rels) && typ.Name == rsk_type(old(text(data)))
 //@ loop 1 invariant typed: srTyped(asSoft(res))
+//@ loop 1 invariant attr-values: forall a3 string :: rsk_hasAttr(old(text(data)), a3) ==> a3 in asSoft(res).data && attrValOK(asSoft(res).data[a3], typ.Attrs[a3], rsk_attrText(old(text(data)), a3))
 //@ loop 1 invariant data-only-fields: forall k string :: k in asSoft(res).data ==> srIsField(asSoft(res), k)
 //@ loop 1 invariant attrs-known: forall a string :: rsk_hasAttr(old(text(data)), a) ==> a in typ.Attrs
 //@ loop 1 invariant rel-values-one: forall r2 string :: visited(r2) && rsk_relData(old(text(data)), r2) != "" ==> r2 in asSoft(res).data && (typ.Rels[r2].ToOne ==> relOneVal(asSoft(res).data[r2], rsk_relData(old(text(data)), r2)))
@@ -206,8 +213,8 @@ package jsonapi
 //@ loop 1 invariant first-now: exists i int :: named(schema, i, rsk_type(old(text(data)))) && typ0 == schema.Types[i]
 //@ loop 2 invariant ids: fresh(ids) && len(ids) == len(idens) && unchanged(heap[string]) && loopkept(heap[string], ids)
 //@ loop 2 invariant ids-so-far: forall j int :: 0 <= j && j <= $idx ==> ids[j] == idens[j].ID
-//@ use SoftResource.Set: set-id keep-id set-rel others checked fresh-data fresh-maps new-maps-empty typed-attrs typed-rels only-fields
-//@ use Attr.UnmarshalToType: error-xor-value accepts accepts-bytes typed-string typed-int typed-int8 typed-int16 typed-int32 typed-int64 typed-uint typed-uint8 typed-uint16 typed-uint32 typed-uint64 typed-bool typed-time-Time typed-slice-byte
+//@ use SoftResource.Set: set-id keep-id set-attr set-rel others checked fresh-data fresh-maps new-maps-empty typed-attrs typed-rels only-fields
+//@ use Attr.UnmarshalToType: error-xor-value accepts accepts-bytes value typed-string typed-int typed-int8 typed-int16 typed-int32 typed-int64 typed-uint typed-uint8 typed-uint16 typed-uint32 typed-uint64 typed-bool typed-time-Time typed-slice-byte
 //@ use Schema.GetType: found missing named first
 //@ assert after Set#1 typ-kept: typ == pre(typ) && asSoft(res).Type == &typ && dyn(res) == type[*SoftResource]
 //@ assert after Set#1 maps-kept: loopkept(maps[map[string]Rel]) && loopkept(maps[map[string]Attr]) && loopkept(heap[uint8])
@@ -346,3 +353,24 @@ package jsonapi
 //@ assert before UnmarshalToType#0 attr-text: rsk_hasAttr(old(text(data)), a) && text(v) == rsk_attrText(old(text(data)), a)
 //@ assert after len#0 data-text: rsk_hasRel(old(text(data)), r) && text(v#1.Data) == rsk_relData(old(text(data)), r)
 //@ assert after len#0 no-data: len(v#1.Data) == 0 ==> rsk_relData(old(text(data)), r) == ""
+//@ assert before Set#0 key-facts: a != "id" && attr == typ.Attrs[a] && res.Type.Attrs[a] == attr && attr.Name == a
+//@ assert before Set#0 val-ok: attrValOK(val, attr, rsk_attrText(old(text(data)), a)) && dyn(val) == goTag(attr.Type, attr.Nullable)
+//@ assert before Set#0 prev-attr-vals: forall a3 string :: a3 != a && visited(a3) ==> a3 in res.data && attrValOK(res.data[a3], typ.Attrs[a3], rsk_attrText(old(text(data)), a3))
+//@ assert after Set#0 cur-attr-val: a in res.data && attrValOK(res.data[a], typ.Attrs[a], rsk_attrText(old(text(data)), a))
+//@ assert after Set#0 prev-attr-vals2: forall a3 string :: a3 != a && visited(a3) ==> a3 in res.data && attrValOK(res.data[a3], typ.Attrs[a3], rsk_attrText(old(text(data)), a3))
+//@ assert after Set#1 attr-vals-kept: forall a3 string :: rsk_hasAttr(old(text(data)), a3) ==> a3 in res.data && attrValOK(res.data[a3], typ.Attrs[a3], rsk_attrText(old(text(data)), a3))
+//@ assert after Set#2 attr-vals-kept: forall a3 string :: rsk_hasAttr(old(text(data)), a3) ==> a3 in res.data && attrValOK(res.data[a3], typ.Attrs[a3], rsk_attrText(old(text(data)), a3))
+
+//@ func UnmarshalResource+
+//@ assert before Set#1 key-facts: a != "id" && attr == typ.Attrs[a] && attr.Name == a
+//@ assert before Set#1 val-ok: attrValOK(val, attr, rsk_attrText(old(text(data)), a)) && dyn(val) == goTag(attr.Type, attr.Nullable)
+//@ assert before Set#1 prev-attr-vals: forall a3 string :: a3 != a && visited(a3) ==> a3 in asSoft(res).data && attrValOK(asSoft(res).data[a3], typ.Attrs[a3], rsk_attrText(old(text(data)), a3))
+//@ assert after Set#1 cur-attr-val: a in asSoft(res).data && attrValOK(asSoft(res).data[a], typ.Attrs[a], rsk_attrText(old(text(data)), a))
+//@ assert after Set#1 prev-attr-vals2: forall a3 string :: a3 != a && visited(a3) ==> a3 in asSoft(res).data && attrValOK(asSoft(res).data[a3], typ.Attrs[a3], rsk_attrText(old(text(data)), a3))
+//@ assert after Set#2 attr-vals-kept: forall a3 string :: rsk_hasAttr(old(text(data)), a3) ==> a3 in asSoft(res).data && attrValOK(asSoft(res).data[a3], typ.Attrs[a3], rsk_attrText(old(text(data)), a3))
+//@ assert after Set#3 attr-vals-kept: forall a3 string :: rsk_hasAttr(old(text(data)), a3) ==> a3 in asSoft(res).data && attrValOK(asSoft(res).data[a3], typ.Attrs[a3], rsk_attrText(old(text(data)), a3))
+//@ assert before NewErrInvalidFieldValueInBody#0 bad-data: rsk_hasRel(old(text(data)), r) && r in typ.Rels && !relDataOK(typ.Rels[r], rsk_relData(old(text(data)), r))
+//@ func UnmarshalResource+
+//@ assert after Set#1 frame-after-set: unchanged(heap[Type]) && unchanged(heap[Schema]) && unchanged(heap[string]) && unchanged(heap[uint8]) && unchanged(heap[SoftResource]) && unchanged(heap[Identifier]) && unchanged(heap[[]Identifier]) && unchanged(heap[time.Time]) && unchanged(heap[resourceSkeleton]) && unchanged(heap[any]) && unchanged(heap[[]uint8]) && unchanged(heap[int]) && unchanged(heap[int8]) && unchanged(heap[int16]) && unchanged(heap[int32]) && unchanged(heap[int64]) && unchanged(heap[uint]) && unchanged(heap[uint16]) && unchanged(heap[uint32]) && unchanged(heap[uint64]) && unchanged(heap[bool]) && unchanged(maps[map[string]Attr]) && unchanged(maps[map[string]Rel]) && unchanged(maps[map[string]any]) && unchanged(maps[map[string][]uint8]) && unchanged(maps[map[string]relationshipSkeleton])
+//@ assert after Set#2 frame-after-set: unchanged(heap[Type]) && unchanged(heap[Schema]) && unchanged(heap[string]) && unchanged(heap[uint8]) && unchanged(heap[SoftResource]) && unchanged(heap[Identifier]) && unchanged(heap[[]Identifier]) && unchanged(heap[time.Time]) && unchanged(heap[resourceSkeleton]) && unchanged(heap[any]) && unchanged(heap[[]uint8]) && unchanged(heap[int]) && unchanged(heap[int8]) && unchanged(heap[int16]) && unchanged(heap[int32]) && unchanged(heap[int64]) && unchanged(heap[uint]) && unchanged(heap[uint16]) && unchanged(heap[uint32]) && unchanged(heap[uint64]) && unchanged(heap[bool]) && unchanged(maps[map[string]Attr]) && unchanged(maps[map[string]Rel]) && unchanged(maps[map[string]any]) && unchanged(maps[map[string][]uint8]) && unchanged(maps[map[string]relationshipSkeleton])
+//@ assert after Set#3 frame-after-set: unchanged(heap[Type]) && unchanged(heap[Schema]) && unchanged(heap[string]) && unchanged(heap[uint8]) && unchanged(heap[SoftResource]) && unchanged(heap[Identifier]) && unchanged(heap[[]Identifier]) && unchanged(heap[time.Time]) && unchanged(heap[resourceSkeleton]) && unchanged(heap[any]) && unchanged(heap[[]uint8]) && unchanged(heap[int]) && unchanged(heap[int8]) && unchanged(heap[int16]) && unchanged(heap[int32]) && unchanged(heap[int64]) && unchanged(heap[uint]) && unchanged(heap[uint16]) && unchanged(heap[uint32]) && unchanged(heap[uint64]) && unchanged(heap[bool]) && unchanged(maps[map[string]Attr]) && unchanged(maps[map[string]Rel]) && unchanged(maps[map[string]any]) && unchanged(maps[map[string][]uint8]) && unchanged(maps[map[string]relationshipSkeleton])
